@@ -877,6 +877,41 @@ def measures_progress(an, prog, b, sl, x, cs):
         return False, "not a component of a fold result"
     k = x[2]
     call = peel(x[1][1])
+    if call[0] == "call" and call[2] is not None and call[2].local and call[2].kind == "Item" and call[2].path in prog.bodies:
+        # x = ok(H(cursor, ..)).k for a crate helper H that decodes one record in a loop of its own and returns
+        # (rest, .., count): count must be 0 + Σ (len(cursor before) − len(cursor after)) over H's parser steps
+        hb = prog.bodies[call[2].path]
+        hokv = peel(an.interp._through("ok", an.local(hb, 0)))
+        members = hokv[1] if hokv[0] == "phi" else [hokv]
+        cnts = []
+        for m in members:
+            m = peel(m)
+            if m[0] == "tuple" and k < len(m[1]):
+                cnts.append(peel(m[1][k]))
+        if cnts:
+            flat = []
+            for c0 in cnts:
+                flat.extend(c0[1] if c0[0] == "phi" else [c0])
+            okh = True
+            why_h = ""
+            n_add = 0
+            for c0 in flat:
+                c0 = peel(c0)
+                if const_of(c0) == 0 or c0[0] == "cycle":
+                    continue
+                if c0[0] == "call" and c0[2] is not None and c0[2].is_(*SAT_ADD) and len(c0[3]) == 2:
+                    acc, d = peel(c0[3][0]), peel(c0[3][1])
+                    if acc[0] in ("cycle", "phi", "const"):
+                        okd, whyd = measures_progress(an, prog, hb, an.slicer(hb), d, set())
+                        if okd:
+                            n_add += 1
+                            continue
+                        why_h = whyd
+                okh = False
+                why_h = why_h or "count member %s" % canon(c0)[:120]
+            if okh and n_add:
+                return True, "it is the count returned by %s: 0 plus, per decoded field, len(cursor before) − len(cursor after) (telescoping sum in the helper's loop)" % call[2].path
+            return False, "count returned by %s is not a sum of consumed lengths: %s" % (call[2].path, why_h)
     if not (call[0] == "call" and call[2] is not None and call[2].nsyn in ("std::iter::Iterator::try_fold", "std::iter::Iterator::fold")):
         return False, "not produced by fold/try_fold"
     init = peel(call[3][1])
